@@ -634,6 +634,33 @@ def check_C06(ctx):
                 problems=bad[:4], lines=list(s.lines), tags=dict(call='gc')))
         ctx.case(('stale-cache', k, tuple(s.lines[-3:])))
         h.finish(SECTIONS_L3, 'C06 stale-cache')
+    # 2b. every function of three variables (both signs) held through each adjacent swap,
+    #     alone and together with a second held function: counts exact after the rooted collection
+    sp3 = Space(ABC)
+    for order in orders_for(ctx, ABC, quick_n=1):
+        for t in range(sp3.full + 1):
+            for lvl in (0, 1):
+                h = History(ctx, list(order))
+                bld = Builder(h.s)
+                r = bld.build(sp3, t)
+                h.hold(r if t % 2 else -r)
+                if t % 3 == 0:
+                    h.hold(bld.build(sp3, (t * 37 + 11) & sp3.full))
+                if t % 5 == 0:
+                    bld.build(sp3, (t * 91 + 5) & sp3.full)     # unreferenced nodes on the side
+                h.s.op(0, 'swap', f'l:{lvl}', f'l:{lvl + 1}')
+                bad = gc_oracle(ctx, h)
+                if not bad:
+                    h.release()
+                    h.s.op(0, 'gc')
+                    bad = gc_oracle(ctx, h, after_gc=True)
+                ctx.evaluations += 1
+                if bad:
+                    ctx.violation('counts wrong after a swap', dict(
+                        problems=bad[:4], lines=list(h.s.lines), tags=dict(call='gc-swap')))
+                ctx.case(('swap-held', t, lvl, order))
+                h.finish(SECTIONS_L3, 'C06 swap-held')
+    ctx.count('swap-held-functions', 512)
     # 3. long random histories with ledger
     for k in range(40 if ctx.tier == 'quick' else 500):
         if ctx.time_left() < 6:
